@@ -618,14 +618,22 @@ func (e *sEval) initValue(g *ssa.Global) (interface{}, string) {
 		return nil, "not assigned exactly once in the package initialiser"
 	}
 	c, ok := val.(*ssa.Call)
-	if !ok || len(c.Call.Args) != 0 {
-		return nil, "initialiser is not a call of a nullary closure"
+	if !ok {
+		return nil, "initialiser is not a call"
 	}
 	callee := c.Call.StaticCallee()
-	if callee == nil || len(callee.FreeVars) != 0 || callee.Signature.Results().Len() != 1 {
-		return nil, "initialiser is not a call of a nullary closure"
+	if callee == nil || len(callee.FreeVars) != 0 || callee.Signature.Results().Len() != 1 || c.Call.IsInvoke() || fnPkg(callee) == nil || !core.InModule(fnPkg(callee)) {
+		return nil, "initialiser is not a call of a closure or function of the module"
 	}
-	res := e.call(callee, nil, nil, 0)
+	var args []interface{}
+	for _, a := range c.Call.Args {
+		k, isConst := a.(*ssa.Const)
+		if !isConst || k.Value == nil || k.Value.Kind() == constant.Float || k.Value.Kind() == constant.Complex {
+			return nil, "initialiser call has a non-constant argument"
+		}
+		args = append(args, k.Value)
+	}
+	res := e.call(callee, args, nil, 0)
 	if e.why != "" || len(res) != 1 {
 		return nil, "initialiser cannot be folded: " + e.why
 	}
